@@ -7,7 +7,7 @@
     non-empty, escapes are literals).  Part 2 ties the search of the index
     ([find_in]) to the specification.  Part 3 is the repository level. *)
 From HV Require Import Base.Prelude Radix.Spec Radix.SpecProofs Radix.Machine Radix.MachineProofs
-  Radix.Load Radix.LoadProofs C02.Model.
+  Radix.Load Radix.LoadProofs Radix.Tree Radix.TreeProofs C02.Model.
 From Coq Require Import Permutation Sorted.
 
 (** * Part 1 — what [spec_lookup] says *)
@@ -300,6 +300,33 @@ Theorem loaded_repaired_find_is_spec (l : list (addop V)) path (m : matcher) :
 Proof. apply repaired_find_is_spec. apply load_wf. Qed.
 
 End Search.
+
+(** * Part 2b — stage 2: the compressed tree of tree.go (Radix/Tree.v) *)
+
+Section TreeSearch.
+Variable V : Type.
+Notation matcher := (matcher V).
+
+(** the repaired findNode on any well-formed tree: the specification on the tree's content *)
+Theorem tree_repaired_find_is_spec (m : matcher) (t : tree V) path :
+  wfb t = true -> tree_find true true true m t path = spec_lookup (abs t) path m.
+Proof.
+  intro H. rewrite (tree_find_refines V m true t path H). cbn [negb].
+  apply find_is_spec; [apply abs_NoDup; assumption | apply abs_nonempty].
+Qed.
+
+(** findNode as it is, capture-independent conditions, outside C02-F1: the value (and
+    key names) the specification gives *)
+Theorem tree_find_is_spec_guarded (m : matcher) (t : tree V) path :
+  cond_only m -> wfb t = true -> guard_F1 (abs t) path m = false ->
+  found_strip V (tree_find false false false m t path) = found_strip V (spec_lookup (abs t) path m).
+Proof.
+  intros Hm H Hg. rewrite (tree_as_is_refines V m Hm false t path H). cbn [negb].
+  rewrite (find_faithful_eq V m Hm (abs t) path Hg).
+  rewrite find_is_spec; [reflexivity | apply abs_NoDup; assumption | apply abs_nonempty].
+Qed.
+
+End TreeSearch.
 
 (** * Part 3 — the repository *)
 
